@@ -56,3 +56,20 @@ Proof.
   destruct (Nat.ltb (List.length data) (pos + wd v)); reflexivity.
 Qed.
 End GetP.
+
+(* b.get(&field) for a field of wire type w, all of it from regenerated code:
+   the statement list of buffer.get run with the statement list of
+   T.UnmarshalBinary as the decoder and the value Wire.width (the run of
+   T.width, Proofs/WireIRP.v) as the width - is Codec.get_val *)
+From MQ Require Import Proofs.WireDecIRP.
+
+Lemma get_with_ext {A} (dc1 dc2 : list byte -> outcome A) wd s :
+  (forall d, dc1 d = dc2 d) -> get_with dc1 wd s = get_with dc2 wd s.
+Proof. intros H. unfold get_with. rewrite H. reflexivity. Qed.
+
+Theorem get_val_is_progs w old s :
+  run_get (fun d => lift (value_of w) (run_wdec (dprog_of w) (wv_of w old) d)) (Wire.width w) get_prog s
+  = get_val w old s.
+Proof.
+  rewrite get_is_prog. unfold get_val. apply get_with_ext. intros d. apply wire_dec_is_prog.
+Qed.
